@@ -1,4 +1,83 @@
 package harness
 
-// replayOther re-executes corpus cases of tags other than the plain decoders; extended as checks are added.
-func replayOther(c *caseWriter, kind string, tag int, rawArgs string) {}
+import (
+	"encoding/hex"
+	"strconv"
+	"strings"
+	"testing"
+	"time"
+)
+
+var corpusT *testing.T
+
+func parseLists(raw string) (nums [][]uint64, bytes [][]byte) {
+	for _, s := range strings.Split(raw, ";") {
+		if strings.HasPrefix(s, "x") {
+			b, _ := hex.DecodeString(s[1:])
+			bytes = append(bytes, b)
+			nums = append(nums, nil)
+			continue
+		}
+		var l []uint64
+		if s != "" {
+			for _, t := range strings.Split(s, ",") {
+				v, _ := strconv.ParseUint(t, 10, 64)
+				l = append(l, v)
+			}
+		}
+		nums = append(nums, l)
+		bytes = append(bytes, nil)
+	}
+	return
+}
+
+func optIPFrom(some, v uint64) []byte {
+	if some == 0 {
+		return nil
+	}
+	return ip4(uint32(v))
+}
+
+// replayOther re-executes corpus cases of tags other than the plain decoders.
+func replayOther(c *caseWriter, kind string, tag int, rawArgs string) {
+	nums, bs := parseLists(rawArgs)
+	g := func(l []uint64, i int) uint64 {
+		if i < len(l) {
+			return l[i]
+		}
+		return 0
+	}
+	switch tag {
+	case 1101:
+		cl := nums[0]
+		cfg := dbCfg{network: uint32(g(cl, 0)), mask: uint32(g(cl, 1)), hasRange: g(cl, 2) != 0, rb: optIPFrom(g(cl, 3), g(cl, 4)), re: optIPFrom(g(cl, 5), g(cl, 6)), disabled: g(cl, 7) != 0}
+		var ops []dbOp
+		for i := 1; i+2 < len(nums); i += 3 {
+			h, d, e := nums[i], bs[i+1], nums[i+2]
+			op := dbOp{kind: int(g(h, 0)), duid: d}
+			switch op.kind {
+			case 1:
+				op.ip = optIPFrom(g(h, 1), g(h, 2))
+				op.ttl = time.Duration(g(h, 4))
+				if g(h, 3) != 0 {
+					op.ttl = -op.ttl
+				}
+			case 3, 6:
+				op.ip = optIPFrom(g(h, 1), g(h, 2))
+			case 4:
+				op.ip = optIPFrom(g(h, 1), g(h, 2))
+				for _, b := range e {
+					op.busy = append(op.busy, uint32(b))
+				}
+				op.probeNs = 600 * time.Millisecond
+				if g(h, 6) >= g(h, 5) && g(h, 3) != 0 {
+					op.probeNs = time.Duration(g(h, 6) - g(h, 5))
+				}
+			case 5:
+				op.dt = time.Duration(g(h, 1))
+			}
+			ops = append(ops, op)
+		}
+		runDBHistory(corpusT, c, kind, cfg, ops)
+	}
+}
